@@ -4,7 +4,7 @@ CONFIG = {
     "coq_targets": ["theories/Client/Properties.vo", "theories/Client/Corr.vo"],
     "properties_files": ["theories/Client/Properties.v"],
     "required_theorems": [
-        "one_executor", "report_honest", "idle_after_failure", "shutdown_never_solicits",
+        "one_executor", "report_honest", "completion_reported", "idle_after_failure", "shutdown_never_solicits",
         "terminate_only_when_safe", "client_trace_ok", "safe_shutdown", "late_cancel_prefers_idle",
         "observer_ok_all", "until_nil_means_idle", "until_none_nothing_running", "shutdown_keeps_synchronizing", "channel_bounded",
     ],
